@@ -358,15 +358,25 @@ fn gen_collections(rep: &mut Rep) {
     use rasn_compiler::verif_hooks::hook_generate_type;
     let nows = |s: &str| s.chars().filter(|c| !c.is_whitespace()).collect::<String>();
     // format_name_and_common_annotations through generate_null / _boolean / _octet_string / _typealias: `delegate`, then the assignment's own tag
-    for env in [TaggingEnvironment::Automatic, TaggingEnvironment::Implicit, TaggingEnvironment::Explicit] { for kind in 0..4usize {
+    for env in [TaggingEnvironment::Automatic, TaggingEnvironment::Implicit, TaggingEnvironment::Explicit] { for kind in 0..6usize {
         let ty = match kind { 0 => ASN1Type::Null, 1 => ASN1Type::Boolean(Boolean { constraints: vec![] }), 2 => ASN1Type::OctetString(OctetString { constraints: vec![] }),
-            _ => ASN1Type::ElsewhereDeclaredType(DeclarationElsewhere { parent: None, module: None, identifier: "Other".into(), constraints: vec![] }) };
+            3 => ASN1Type::ElsewhereDeclaredType(DeclarationElsewhere { parent: None, module: None, identifier: "Other".into(), constraints: vec![] }),
+            4 => ASN1Type::GeneralizedTime(GeneralizedTime { constraints: vec![] }), _ => ASN1Type::UTCTime(UTCTime { constraints: vec![] }) };
         for (tc, w) in [(TagClass::Universal, "universal"), (TagClass::Application, "application"), (TagClass::Private, "private"), (TagClass::ContextSpecific, "context")] { for id in [0u64, 31, u64::MAX] { for mode in [TaggingEnvironment::Implicit, TaggingEnvironment::Explicit] {
             let got = hook_generate_type(env, false, &ty, Some(AsnTag { environment: mode, tag_class: tc, id }));
             let want = if mode == TaggingEnvironment::Explicit { format!("#[rasn(delegate,tag(explicit({w},{id})))]") } else { format!("#[rasn(delegate,tag({w},{id}))]") };
-            let d = || format!("module_default={env:?} T ::= [{w} {id}] (resolved {mode:?}) {} -> {}", ["NULL", "BOOLEAN", "OCTET STRING", "Other"][kind], match &got { Ok(t) => nows(t), Err(e) => format!("ERR {e}") });
+            let d = || format!("module_default={env:?} T ::= [{w} {id}] (resolved {mode:?}) {} -> {}", ["NULL", "BOOLEAN", "OCTET STRING", "Other", "GeneralizedTime", "UTCTime"][kind], match &got { Ok(t) => nows(t), Err(e) => format!("ERR {e}") });
             rep.check("C03.common_annotations.delegate_then_the_tag_of_this_assignment_then_the_identifier_when_mangled", matches!(&got, Ok(t) if nows(t).contains(&want)), d);
             rep.check("C03.common_annotations.name_is_the_title_cased_type_name", matches!(&got, Ok(t) if nows(t).contains("pubstructT")), d);
+            if let Some((f, inner)) = [Some(("null", "()")), Some(("boolean", "bool")), None, None, Some(("generalized_time", "GeneralizedTime")), Some(("utc_time", "UtcTime"))][kind] {
+                let full = format!("{}]pubstructT(pub{inner});", &want[..want.len() - 1]);
+                let ok = matches!(&got, Ok(t) if nows(t).contains(&full) || nows(t).contains(&full.replace(")]pubstruct", ",Copy)]pubstruct")));
+                let (n1, n2) = match f { "null" => ("C03.generate_null.newtype_with_exactly_the_common_annotations_delegate_own_tag_identifier", "C03.generate_null.fails_only_when_joining_the_annotations_fails"),
+                    "boolean" => ("C03.generate_boolean.newtype_with_exactly_the_common_annotations_delegate_own_tag_identifier", "C03.generate_boolean.fails_only_when_joining_the_annotations_fails"),
+                    "generalized_time" => ("C03.generate_generalized_time.newtype_with_exactly_the_common_annotations_delegate_own_tag_identifier", "C03.generate_generalized_time.fails_only_when_joining_the_annotations_fails"),
+                    _ => ("C03.generate_utc_time.newtype_with_exactly_the_common_annotations_delegate_own_tag_identifier", "C03.generate_utc_time.fails_only_when_joining_the_annotations_fails") };
+                rep.check(n1, ok, d); rep.check(n2, got.is_ok(), d);
+            }
         } } }
     } }
     for env in [TaggingEnvironment::Automatic, TaggingEnvironment::Implicit, TaggingEnvironment::Explicit] { for is_set in [false, true] { for elem in 0..3usize {
